@@ -54,6 +54,12 @@ type c13Reader struct {
 	fatalAt  int // call index of the first non-EOF, non-timeout error; -1
 	lastKind int
 	run      int // number of consecutive EOF/timeout results ending at the last call
+	// silentTail: after the script the source stays silent for good: every
+	// further call takes 100 ms and reports io.EOF or a freshly made timeout
+	// error, alternately (a real file descriptor makes a new error value
+	// for every timeout)
+	silentTail bool
+	tailCalls  int
 }
 
 func c13Name(prefix string, i int) string {
@@ -63,6 +69,15 @@ func c13Name(prefix string, i int) string {
 func (r *c13Reader) Read(p []byte) (int, error) {
 	i := r.calls
 	r.calls++
+	if i >= r.max && r.silentTail && r.tailCalls < 10 {
+		r.tailCalls++
+		r.run++
+		verifAdvanceClock(100 * 1000000)
+		if r.tailCalls%2 == 1 {
+			return 0, io.EOF
+		}
+		return 0, errors.New("read /dev/ttyUSB0: i/o timeout")
+	}
 	if i >= r.max {
 		// the script is over: the device disappears
 		if r.fatalAt < 0 {
@@ -133,6 +148,11 @@ func VerifC13_Interruptions() {
 	wait := []uint{0, 1}[verifParam("wait", minWait, 1)]
 	cfg := &jsonconfig.Config{TimeoutOnEOFMilliSeconds: tol, WaitTimeOnEOFMilliseconds: wait}
 	rd := &c13Reader{max: calls, fatalAt: -1}
+	if verifParam("silent-tail", 0, 1) == 1 {
+		// one scripted call of any kind, then silence for good: the handler
+		// must give up (ten silent calls are a second, five tolerances)
+		rd.max, rd.silentTail = 1, true
+	}
 	msgChan := make(chan rtcm.Message, 32)
 	h := New(msgChan, cfg)
 	verifWitness("reached")
@@ -155,6 +175,9 @@ func VerifC13_Interruptions() {
 	verifQuiesce()
 	verifAssert("framing-goroutine-finished", verifLiveGoroutines() == 0)
 	verifAssert("stopped-with-the-read-error", err != nil)
+	if rd.silentTail {
+		verifAssert("gives-up-when-the-source-stays-silent", rd.tailCalls < 10)
+	}
 	verifAssert("no-empty-message", !empty)
 	verifAssert("every-byte-exactly-once-in-order", verifBytesEq(got, rd.supplied))
 
